@@ -131,7 +131,7 @@ let () =
                           | _, [_dk; _dv; dd; live] ->
                             (* ownership ledger: no object dropped twice, and the tracked keys and values still
                                alive are exactly one key and one value per retained entry of the model *)
-                            dd <> Z0 || live <> BinInt.Z.mul (z_of_int 2) (BinInt.Z.of_nat (Univ.uretained s'))
+                            dd <> Z0 || live <> BinInt.Z.add (BinInt.Z.mul (z_of_int 2) (BinInt.Z.of_nat (Univ.uretained s'))) (BinInt.Z.of_nat (Univ.uleaked s'))
                           | _ -> false) then begin
                    alive := false; incr bad_cases;
                    report "ledger"
